@@ -298,7 +298,8 @@ Definition text_inv (h : heap) (vroot parent : nat) (pi : piter) : Prop :=
   exists ns, walk h vroot ns parent /\ firstn (pi_end pi) (pi_path pi) = spell ns.
 
 Definition text_post (h : heap) (vroot : nat) (r : sres) : Prop :=
-  forall p, sr_parent r = Some p -> sr_err r <> EFuel -> pi_is_last (sr_pi r) = true ->
+  forall p, sr_parent r = Some p -> sr_err r <> EFuel ->
+            (pi_is_last (sr_pi r) = true \/ sr_err r = EFileExists) ->
             sr_child r <> Some p ->
             exists ns, walk h vroot ns p /\ pi_path (sr_pi r) = spell (ns ++ [pi_part (sr_pi r)]).
 
@@ -315,13 +316,14 @@ Proof.
     destruct (pi_next_text pi pi1 Hle Hsep En) as (P1 & P2 & P3 & P4 & P5 & P6 & P7).
     (* every result built on pi1 with a child found in [parent] or with no child *)
     assert (Hres : forall ch e,
-              ch <> Some parent ->
+              ch <> Some parent -> (e = EFileExists -> pi_is_last pi1 = true) ->
               text_post h vroot {| sr_parent := Some parent; sr_child := ch; sr_pi := out_pi pi1 None; sr_err := e |}).
-    { intros ch e _ p Hp _ Hlast _. cbn [sr_parent sr_pi out_pi] in *. injection Hp as <-.
+    { intros ch e _ Hfe p Hp _ Hlast0 _. cbn [sr_parent sr_pi sr_err out_pi] in *. injection Hp as <-.
+      assert (Hlast : pi_is_last pi1 = true) by (destruct Hlast0; auto).
       exists ns. split; auto. unfold pi_is_last in Hlast. apply Nat.eqb_eq in Hlast.
       rewrite spell_snoc, <- Hfn, <- P6, Hlast, P1, firstn_all. reflexivity. }
     destruct (alk (pi_part pi1) (children h parent)) as [c|] eqn:Elk.
-    2:{ apply Hres. discriminate. }
+    2:{ apply Hres; [discriminate|]. destruct (pi_is_last pi1); discriminate. }
     assert (He : edge h parent (pi_part pi1) c) by now apply alookup_In.
     assert (Hdesc : forall c', edge h parent (pi_part pi1) c' -> text_inv h vroot c' pi1).
     { intros c' He'. unfold text_inv. rewrite P1, P3. repeat split; auto.
@@ -339,12 +341,13 @@ Proof.
       - unfold edge in He. rewrite children_get, Eg in He. destruct He. }
     assert (Hne : Some c <> Some parent) by congruence.
     destruct (get h c) as [[ch m|dt k id m|lk m]|] eqn:Eg.
-    + destruct (pi_is_last pi1); [now apply Hres|].
-      destruct (check_permission m OpenLookup (v_user v)); [|now apply Hres].
+    + destruct (pi_is_last pi1) eqn:El; [now apply Hres|].
+      destruct (check_permission m OpenLookup (v_user v)); [|apply Hres; [exact Hne | discriminate]].
       apply IH. now apply Hdesc.
-    + destruct (pi_is_last pi1); now apply Hres.
-    + destruct (Nat.ltb slCountMax (S sl)); [now apply Hres|].
-      destruct (pi_is_last pi1 && slmode_eqb slm SlLstat); [now apply Hres|].
+    + destruct (pi_is_last pi1) eqn:El; (apply Hres; [exact Hne | auto; discriminate]).
+    + destruct (Nat.ltb slCountMax (S sl)); [apply Hres; [exact Hne | discriminate]|].
+      destruct (pi_is_last pi1 && slmode_eqb slm SlLstat) eqn:Ell;
+        [apply Hres; [exact Hne | intros _; now apply Bool.andb_true_iff in Ell]|].
       assert (Hsaved : (if pi_is_last pi1 && slmode_eqb slm SlStat then Some pi1 else None) = None).
       { destruct slm; try congruence; now rewrite Bool.andb_false_r. }
       rewrite Hsaved.
